@@ -78,18 +78,18 @@ FLOORS = {
                            "method_pairs_with_different_values_tokenized-first": 10000,
                            "method_pairs_with_different_values_derived-first": 5000,
                            "source_nodes_with_cached_token": 400, "method_fuse_pairs": 190}},
-    "thorough": {"evaluations": 33000, "distinct_nontrivial": 26000, "max_skipped_fraction": 0.2,
+    "thorough": {"evaluations": 28000, "distinct_nontrivial": 22000, "max_skipped_fraction": 0.2,
                  "counters": {"pairs": 180000, "identical_pairs": 75000, "identical_pairs_equal_and_same_token": 75000,
                               "pairs_judged": 80000, "pairs_judged_equal_values": 75000, "derived_pairs_judged": 4500,
                               "pairs_differing_by_container_order_or_pairing_only": 18000,
                               "pairs_different_identity": 85000,
-                              "method_cases_tokenized-first": 9000, "method_cases_derived-first": 4000,
-                              "method_pairs": 190000, "method_pairs_tokenized-first": 130000,
-                              "method_pairs_derived-first": 60000, "method_enclosed_pairs": 380000,
-                              "method_pairs_judged": 260000,
-                              "method_pairs_with_different_values_tokenized-first": 190000,
-                              "method_pairs_with_different_values_derived-first": 90000,
-                              "source_nodes_with_cached_token": 7500, "method_fuse_pairs": 3500}},
+                              "method_cases_tokenized-first": 6000, "method_cases_derived-first": 2600,
+                              "method_pairs": 125000, "method_pairs_tokenized-first": 85000,
+                              "method_pairs_derived-first": 38000, "method_enclosed_pairs": 250000,
+                              "method_pairs_judged": 175000,
+                              "method_pairs_with_different_values_tokenized-first": 130000,
+                              "method_pairs_with_different_values_derived-first": 58000,
+                              "source_nodes_with_cached_token": 5000, "method_fuse_pairs": 2500}},
 }
 EXHAUSTIVE_SPACE = None
 LEVEL_NOTE = "trusts python equality of plain values and the harness term evaluator is not even needed: both sides are evaluated by dask"
@@ -111,7 +111,7 @@ DKEYS = ["a", "b", "c", "x", 1, ("t", 9), "y"]
 QUICK_CASES = 2200
 THOROUGH_CASES = 40000
 QUICK_METHOD_CASES = 1600
-THOROUGH_METHOD_CASES = 30000
+THOROUGH_METHOD_CASES = 20000
 
 
 def cases(tier, seed):
